@@ -978,6 +978,47 @@ def r14g(ctx):
                        f"looked up by position instead — another object is returned, or none, although it was stored under that name")
 
 
+_STR_PREDICATES = {"isprintable", "isascii", "isalnum", "isalpha", "isidentifier", "islower", "isupper", "istitle", "isspace", "isdecimal", "isdigit", "isnumeric"}
+
+
+def r14h(ctx):
+    """Whether an object is found is decided by the query, not by a look at the identifier.
+
+    The shared lookup functions build a query from the caller's criteria and return what it selects.  Every string the setters accept is a
+    legal identifier — names with a no-break space, a zero-width joiner, a tab.  A guard that answers "nothing" (or raises) because the
+    identifier fails a character test (`isprintable()`, `isascii()`, `isalnum()` …) makes such objects unfindable under the name they were
+    stored with.  Rule (expected count 0): in the functions through which identifiers reach an XPath sink — the sink-parameter functions
+    and the query builders — no branch condition applies a str predicate to a criterion.
+    """
+    repo = ctx.repo
+    ctx.rule("R14h", "no lookup function decides on a character test (isprintable/isascii/isalnum …) of the identifier", floor=10)
+    flow = Flow(repo)
+    n = 0
+    for f in flow.funcs:
+        if not (f.name in flow.sink_params or f.name in flow.query_returning):
+            continue  # only functions whose own parameters become (part of) a query
+        if "/scripts/" in f.file or f.file.endswith("utils/coordinates.py"):
+            continue
+        n += 1
+        bad = []
+        for st in walk_no_nested(f.node):
+            t = st.test if isinstance(st, (ast.If, ast.While, ast.IfExp)) else None
+            if t is None and isinstance(st, (ast.ListComp, ast.GeneratorExp, ast.SetComp)):
+                for g in st.generators:
+                    for i in g.ifs:
+                        if any(isinstance(x, ast.Call) and isinstance(x.func, ast.Attribute) and x.func.attr in _STR_PREDICATES for x in ast.walk(i)):
+                            bad.append(i)
+            if t is not None and any(isinstance(x, ast.Call) and isinstance(x.func, ast.Attribute) and x.func.attr in _STR_PREDICATES for x in ast.walk(t)):
+                bad.append(t)
+        ctx.instance("R14h", f"{f.file}:{f.ident}", "no character test on the criteria", ok=not bad, nontrivial=bool(bad), line=f.node.lineno)
+        for t in bad[:1]:
+            ctx.report("R14h", f, t, f"{norm(t, 60)}",
+                       f"{f.ident} takes a decision on a character test of the identifier (`{norm(t, 50)}`): names the setters accept — with a no-break space, a joiner, a tab — are "
+                       f"answered with 'not found' although the object is stored under exactly that name")
+    if n < 10:
+        raise AnalysisError(f"R14h: only {n} lookup function(s) found")
+
+
 def run(ctx):
     r14a(ctx)
     r14c(ctx)
@@ -986,6 +1027,7 @@ def run(ctx):
     r14e(ctx)
     r14f(ctx)
     r14g(ctx)
+    r14h(ctx)
     # a named range is found under its table name only if the address writer and reader agree on how that name is quoted (rule shared with C19)
     from .c19 import r19b, r19f
     r19b(ctx)
@@ -1022,6 +1064,9 @@ SEEDS = [
     Seed("_get_table takes a name made of digits for an index", "fault", "src/odfdo/document.py",
          "        if isinstance(table, int):\n            return self.body.get_table(position=table)  # type: ignore",
          "        if isinstance(table, str) and table.strip().isdigit():\n            table = int(table)\n        if isinstance(table, int):\n            return self.body.get_table(position=table)  # type: ignore", "R14g"),
+    Seed("_filtered_elements answers nothing for a criterion that is not printable", "fault", _EL,
+         "        query = make_xpath_query(query_string, **kwargs)\n        elements = self.get_elements(query)",
+         "        for value in kwargs.values():\n            if isinstance(value, str) and not value.isprintable():\n                return []\n        query = make_xpath_query(query_string, **kwargs)\n        elements = self.get_elements(query)", "R14h"),
     Seed("make_xpath_query trims the keyword it files", "fault", _XQ, 'attributes["text:name"] = text_name', 'attributes["text:name"] = text_name.strip()', "R14d"),
     Seed("make_xpath_query converts the value with str() first", "neutral", _XQ,
          '            query.append(f"[@{qname}={xpath_string_literal(value)}]")', '            shown = str(value)\n            query.append(f"[@{qname}={xpath_string_literal(shown)}]")'),
